@@ -35,6 +35,8 @@ CONSTANTS Targets,      \* build_file targets (prefix-free set of paths)
           FNames0, FNames1,     \* function names callable from the root / from level-0 functions
           VerVals,      \* version terms (TNone = absent)
           MaxStmts, MaxRootStmts, RootQueries, MaxBuilds, MaxExt, MaxCleans,
+          Verbose,       \* TRUE (simulation configs): print a tag whenever a reuse prediction is checked,
+                         \* so that the evidence can show ReuseSound / ReuseComplete were not vacuous
           AllowKeepMeta  \* TRUE: the environment may change the bytes of a file while keeping
                          \* its size and mtime (the documented blind spot of METADATA; C13)
 
@@ -265,7 +267,9 @@ DoEnd(stmt) ==
            s2 == Apply(s1, e2)
            newrec == Top(s2).subs[Len(Top(s2).subs)]
            rv == ReuseVerdict(s2, preds[Len(preds)], newrec, s)
-       IN /\ s' = s2
+           pr == preds[Len(preds)]
+       IN /\ (Verbose /\ pr.on) => PrintT(<<"RV", IF pr.fuzzy THEN "fuzzy" ELSE IF pr.valid THEN "valid" ELSE "invalid", rv>>)
+          /\ s' = s2
           /\ bad' = Note(IF Check(s, e1) # "" THEN Check(s, e1)
                          ELSE IF Check(s1, e2) # "" THEN Check(s1, e2) ELSE rv)
           /\ preds' = SubSeq(preds, 1, Len(preds) - 1)
